@@ -153,6 +153,7 @@ pub struct Snap {
     pub storage: SimStorage,
     pub block: BlockInfo,
     pub frozen: Vec<(String, String)>,
+    pub nanos: u64,
 }
 
 pub struct TxOut {
@@ -193,6 +194,8 @@ pub struct World {
     pub app: SimApp,
     pub cfg: WorldCfg,
     pub a: Addrs,
+    /// sub-second part of the block time (blocks on a live chain do not land on whole seconds)
+    pub nanos: u64,
 }
 
 const BANK_PREFIX: &[u8] = b"\x00\x04bank\x00\x08balances";
@@ -342,6 +345,7 @@ impl World {
             app,
             cfg: cfg.clone(),
             a: Addrs { owner, owner2, stranger, users, em, fc, fc2, fm, pm, alt },
+            nanos: 0,
         }
     }
 
@@ -352,13 +356,28 @@ impl World {
     pub fn advance(&mut self, dt: u64) {
         let mut b = self.app.block_info();
         let t = b.time.seconds().saturating_add(dt);
-        b.time = Timestamp::from_seconds(t);
+        b.time = Self::ts(t, self.nanos);
         b.height += 1;
+        self.app.set_block(b);
+    }
+    fn ts(secs: u64, nanos: u64) -> Timestamp {
+        // stay representable: seconds * 1e9 + nanos must fit in u64
+        let max_s = u64::MAX / 1_000_000_000;
+        if secs >= max_s {
+            Timestamp::from_seconds(max_s)
+        } else {
+            Timestamp::from_seconds(secs).plus_nanos(nanos.min(999_999_999))
+        }
+    }
+    pub fn set_nanos(&mut self, ns: u64) {
+        self.nanos = ns.min(999_999_999);
+        let mut b = self.app.block_info();
+        b.time = Self::ts(b.time.seconds(), self.nanos);
         self.app.set_block(b);
     }
     pub fn set_time(&mut self, t: u64) {
         let mut b = self.app.block_info();
-        b.time = Timestamp::from_seconds(t);
+        b.time = Self::ts(t, self.nanos);
         b.height += 1;
         self.app.set_block(b);
     }
@@ -372,12 +391,14 @@ impl World {
             storage: self.app.storage().clone(),
             block: self.app.block_info(),
             frozen: get_frozen(),
+            nanos: self.nanos,
         }
     }
     pub fn restore(&mut self, s: &Snap) {
         *self.app.storage_mut() = s.storage.clone();
         self.app.set_block(s.block.clone());
         set_frozen(s.frozen.clone());
+        self.nanos = s.nanos;
     }
     pub fn storage_eq(&self, s: &Snap) -> bool {
         self.app.storage().map == s.storage.map
